@@ -1,7 +1,7 @@
 From Coq Require Import List ZArith NArith Bool Lia.
 From Coq.Strings Require Import Byte.
 Import ListNotations.
-From SV Require Import Text G_submat_index C20_Model C20_Finite C20_Render.
+From SV Require Import Text G_submat_index C20_Model C20_Finite C20_Render C20_Num.
 
 (* ================= small generic lemmas ================= *)
 Lemma strs_eqb_eq a b : strs_eqb a b = true -> a = b.
@@ -523,4 +523,94 @@ Proof.
   - intros r vs Hin j c tok Hc Ht. apply in_map_iff in Hin. destruct Hin as (line & Hl & Hin).
     apply (parse_positional _ _ Hwf Hp line r vs) with (j := j); [rewrite Hd; exact Hin|exact Hl| |exact Ht].
     rewrite Hh. exact Hc.
+Qed.
+
+(* numbers: a row written with the canonical literals of its numbers is read back as exactly these numbers *)
+Lemma fl_uniform vals v : row_uniform vals = true -> In v vals ->
+  existsb has_dot (map render_num vals) = negb (is_int_num v).
+Proof.
+  unfold row_uniform. intros H Hin. apply orb_prop in H. destruct H as [H|H]; rewrite forallb_forall in H.
+  - rewrite (H v Hin). cbn [negb].
+    destruct (existsb has_dot (map render_num vals)) eqn:E; [|reflexivity].
+    apply existsb_exists in E. destruct E as (x & Hx & Hd). apply in_map_iff in Hx. destruct Hx as (v0 & <- & Hv0).
+    rewrite (proj2 (parse_render_num v0)), (H v0 Hv0) in Hd. discriminate.
+  - pose proof (H v Hin) as Hv. destruct (is_int_num v); [discriminate|]. cbn [negb].
+    apply existsb_exists. exists (render_num v). split; [apply in_map; exact Hin|].
+    rewrite (proj2 (parse_render_num v)). destruct (is_int_num v) eqn:E; [|reflexivity].
+    specialize (H v Hin). rewrite E in H. discriminate.
+Qed.
+
+Lemma render_cells f m : afile_ok f = true -> wf_content (render f) = true -> parse (render f) = Some m ->
+  forall hs rows, word_lines f = hs :: rows ->
+  forall r vals, row_uniform vals = true -> In (r :: map render_num vals) rows ->
+  forall j c v, nth_error hs j = Some c -> nth_error vals j = Some v -> cell m r c = Some v.
+Proof.
+  intros Hf Hwf Hp hs rows Hw r vals Hu Hin j c v Hc Hv.
+  destruct (render_positional f m Hf Hwf Hp hs rows Hw) as [_ H].
+  destruct (H r (map render_num vals) Hin j c (render_num v) Hc (map_nth_error render_num j vals Hv)) as (v' & Hv' & Hcell).
+  rewrite (fl_uniform vals v Hu (nth_error_In _ _ Hv)) in Hv'.
+  rewrite (proj1 (parse_render_num v)) in Hv'. congruence.
+Qed.
+
+(* the whole function on names *)
+Lemma submat_bundled nm raw s : In (nm, raw) submat_files -> upper s = upper nm ->
+  exists m, submat_name s = OMatrix m /\ parse raw = Some m.
+Proof.
+  intros H Hs. destruct (bundled_wf nm raw H) as (_ & _ & m & Hm).
+  exists m. split; [|exact Hm]. unfold submat_name. rewrite (resolve_spelling nm raw s H Hs), Hm. reflexivity.
+Qed.
+Lemma submat_unknown s : ~ In (upper s) submat_names -> submat_name s = OFileNotFound (fnf_message s).
+Proof. intros H. unfold submat_name. rewrite (proj2 (resolve_missing s) H). reflexivity. Qed.
+Lemma submat_name_no_value_error s : submat_name s <> OValueError.
+Proof.
+  unfold submat_name, resolve. destruct (dict_get (upper s) submat_files) as [raw|] eqn:E; [|discriminate].
+  apply dict_get_In in E. destruct (bundled_wf _ _ E) as (_ & _ & m & ->). discriminate.
+Qed.
+
+(* the same for any text whose non-skipped lines have known word lists (used for the other line terminators) *)
+Lemma positional_of_words raw m hs rows : map split_ws (content_lines raw) = hs :: rows ->
+  wf_content raw = true -> parse raw = Some m ->
+  map fst m = map (hd []) rows /\
+  forall r vs, In (r :: vs) rows ->
+  forall j c tok, nth_error hs j = Some c -> nth_error vs j = Some tok ->
+  exists v, parse_num (existsb has_dot vs) tok = Some v /\ cell m r c = Some v.
+Proof.
+  intros E Hwf Hp.
+  destruct (content_lines raw) as [|h D] eqn:EC; [discriminate|].
+  cbn [map] in E. inversion E as [[Eh ED]].
+  assert (Hh : header_of raw = split_ws h) by (unfold header_of; rewrite EC; reflexivity).
+  assert (Hd : data_lines raw = D) by (unfold data_lines; rewrite EC; reflexivity).
+  split.
+  - destruct (parse_shape _ _ Hwf Hp) as (Hk & _). rewrite Hk, Hd. unfold first_word. rewrite <- map_map. reflexivity.
+  - intros r vs Hin j c tok Hc Ht. apply in_map_iff in Hin. destruct Hin as (line & Hl & Hin).
+    apply (parse_positional _ _ Hwf Hp line r vs) with (j := j); [rewrite Hd; exact Hin|exact Hl| |exact Ht].
+    rewrite Hh. exact Hc.
+Qed.
+Lemma cells_of_words raw m hs rows : map split_ws (content_lines raw) = hs :: rows ->
+  wf_content raw = true -> parse raw = Some m ->
+  forall r vals, row_uniform vals = true -> In (r :: map render_num vals) rows ->
+  forall j c v, nth_error hs j = Some c -> nth_error vals j = Some v -> cell m r c = Some v.
+Proof.
+  intros E Hwf Hp r vals Hu Hin j c v Hc Hv.
+  destruct (positional_of_words raw m hs rows E Hwf Hp) as [_ H].
+  destruct (H r (map render_num vals) Hin j c (render_num v) Hc (map_nth_error render_num j vals Hv)) as (v' & Hv' & Hcell).
+  rewrite (fl_uniform vals v Hu (nth_error_In _ _ Hv)) in Hv'.
+  rewrite (proj1 (parse_render_num v)) in Hv'. congruence.
+Qed.
+
+(* LF / CRLF / CR line ends, with or without a terminator after the last line *)
+Lemma render_with_positional e final f m : afile_ok f = true ->
+  wf_content (render_with e final f) = true -> parse (render_with e final f) = Some m ->
+  forall hs rows, word_lines f = hs :: rows ->
+  map fst m = map (hd []) rows /\
+  (forall r vs, In (r :: vs) rows ->
+   forall j c tok, nth_error hs j = Some c -> nth_error vs j = Some tok ->
+   exists v, parse_num (existsb has_dot vs) tok = Some v /\ cell m r c = Some v) /\
+  (forall r vals, row_uniform vals = true -> In (r :: map render_num vals) rows ->
+   forall j c v, nth_error hs j = Some c -> nth_error vals j = Some v -> cell m r c = Some v).
+Proof.
+  intros Hf Hwf Hp hs rows Hw.
+  pose proof (words_of_rendered_with e final f Hf) as E. rewrite Hw in E.
+  destruct (positional_of_words _ m hs rows E Hwf Hp) as [H1 H2].
+  split; [exact H1|]. split; [exact H2|]. exact (cells_of_words _ m hs rows E Hwf Hp).
 Qed.
